@@ -20,7 +20,7 @@ def S(cmd, a=0, b=0, c=0, **kw):
 PINNED = [
     [S("runscript"), S("tick"), S("edit"), S("runscript"), S("runscript"), S("tick"), S("touch"), S("runscript"), S("editolder"), S("runscript")],
     [S("runscript"), S("damage", "trunc"), S("runscript"), S("damage", "xver"), S("runscript"), S("damage", "pyver"), S("runscript"), S("damage", "garbage"), S("runscript"), S("tick"), S("edit"), S("runscript")],
-    [S("runcode", "t1", "exec", True), S("runcode", "t1", "single", True), S("runcode", "t1", "exec", False), S("damagecode", "t1", "trunc"), S("runcode", "t1", "single", False), S("runcode", "t1", "single", False)],
+    [S("runcode", "t1", "exec", True), S("runcode", "t1", "single", True), S("runcode", "t1", "exec", False), S("damagecode", "t1", "trunc", "exec"), S("runcode", "t1", "single", False), S("runcode", "t1", "single", False)],
 ]
 
 
